@@ -82,6 +82,10 @@ def main(pid: str, tier: str, seed: int, assumptions: Sequence[str] = (), use_ho
     from mc.checks import modeb
 
     extra += modeb.tasks(pid, tier, seed, families=fams)
+    if pid in ("C04", "C05", "C07", "C12"):
+        from mc.checks import scenarios
+
+        extra += scenarios.tasks(pid, tier, seed, families=fams)
     rep = run_property(pid, tier, seed, cfgs, assumptions=list(assumptions) + [
         "default-size configurations additionally in mode B: every schedule within 1 deviation (any action) of the "
         "first-masked-in-action base schedule, run to termination or to the listed cap (models <cfg>@modeB)",
